@@ -199,7 +199,8 @@ Definition fill_into (src buf : img) (iy ix by_ bx : slice) : option img :=
   end.
 
 (* sub_b = b[by, bx]; sub_i = i[iy, ix]; mode-specific masked store into sub_b.
-   [u] is the per-pixel rule: [upd_px] for the code as it is. *)
+   [u] is the per-pixel rule: [upd_px] for the code before fix a186b8b (np.maximum on integers),
+   [upd_px_fixed] for the code as it is now. *)
 Definition update_into_gen (u : mode -> pixel -> pixel -> pixel)
            (src buf : img) (iy ix by_ bx : slice) : option img :=
   match rects src buf iy ix by_ bx with
@@ -216,7 +217,7 @@ Definition update_into_gen (u : mode -> pixel -> pixel -> pixel)
 Definition update_into : img -> img -> slice -> slice -> slice -> slice -> option img :=
   update_into_gen upd_px.
 
-(* Repaired integer rule (finding C02-1, fixes/C02-1.patch): zero means undefined on
+(* Repaired integer rule (finding C02-1; /repo commit a186b8b, the code as it is now): zero means undefined on
    both sides, so a zero buffer pixel takes the source and a zero source leaves
    the buffer alone, whatever the signs; two non-zero values keep the larger.
    Coincides with np.maximum on non-negative data. *)
